@@ -33,10 +33,10 @@ C12 = _load_c12()
 KEY_PARTIAL = "create_data_movement_deep_copy_refs/copyout-array-partially-written"
 KEY_READ = "create_data_movement_deep_copy_refs/copyout-array-read-before-written"
 
-HEADER = """From Coq Require Import List ZArith Bool. Import ListNotations.
+HEADER = """From Coq Require Import List ZArith Bool String. Import ListNotations.
 From PV Require Import Fort.Syntax Fort.Sem C11.Access C12.InOut C13.AccData.
 Open Scope Z_scope.
-Definition x_accept (x : xstmt) : bool := match x with XCore s => s_accept s | XCall _ => true end.
+Definition x_accept (x : xstmt) : bool := match x with XCore s => s_accept s | _ => true end.
 (* case: region (with calls), declared arrays, implementation accepted?, copyin, copyout, copy, culprit arrays
    result: (verdict agrees, clauses agree (true when refused), copyout arrays never read, reason codes) *)
 Definition c13_case := (list xstmt * list name * bool * list name * list name * list name * list name)%type.
@@ -212,6 +212,7 @@ def run(ctx):
                        "bounds, every in-bounds element of every copyout array written",
                        "scalars are outside the claim (modelled as shared between host and device)",
                        "non-structure signatures only (no derived types)"]
+    ctx.notes["intrinsics_translated"] = len(C12.run_translator())
     ok, rep = ctx.prove()
     ctx.log("proof ok=%s discharged=%d/%d" % (ok, ctx.cov["discharged"], ctx.cov["obligations"]))
 
@@ -243,9 +244,10 @@ def run(ctx):
             for lo, hi in spans:
                 nodes = sched.children[lo:hi]
                 try:
-                    region = C12.xstmts_from_psyir(nodes)
-                except mf.OutOfSubset:
+                    region = C12.xstmts_from_psyir(nodes, bnds)
+                except mf.OutOfSubset as e:
                     n_oos += 1
+                    ctx.hist("out_of_subset", str(e)[:60])
                     continue
                 rtxt = "\n".join(C12.xstmts_to_fortran(region))
                 sem = C12.expand_calls(region, bnds)
@@ -254,7 +256,7 @@ def run(ctx):
                     ctx.violation({"property": "C13", "what": "clauses of the ACCDataDirective node differ from the written "
                                    "directive", "region": rtxt, "node": res[1], "text": res[2]}, no_input=True)
                     res = res[1]
-                has_call = any(s[0] == "call" for s in region)
+                has_call = C12.has_call(region)
                 reg = {"tag": tag, "region": rtxt, "xs": region, "nm": nm, "arrays": arrays, "bnds": bnds, "routine": txt,
                        "span": (path, lo, hi), "accepted": res[0] == "ok", "clauses": res[1:] if res[0] == "ok" else None,
                        "has_call": has_call, "fails": [], "stores": stores, "ran": 0, "run_ok": 0}
@@ -307,11 +309,17 @@ def run(ctx):
         g = Gen13(rng, max_depth=2)
         prog = g.block({}, 0, False, rng.randint(2, 5))
         c = rng.random()
-        if c < 0.3:
+        if c < 0.25:
             prog.insert(rng.randint(0, len(prog)), g.call({}))
-        elif c < 0.6:
+        elif c < 0.45:
             k = rng.randint(0, len(prog))
             prog[k:k] = g.call_with_partial_write()
+        c = rng.random()
+        if c < 0.3:
+            prog.insert(rng.randint(0, len(prog)), g.wop())
+        elif c < 0.6:
+            k = rng.randint(0, len(prog))
+            prog[k:k] = g.wop_then_overwrite()
         stores = [g.store() for _ in range(nstores)]
         for vals, _ in stores:           # loop variables matter when a loop body is run as a region
             for v in fortgen.LOOPVARS:
